@@ -23,6 +23,7 @@ def run(ctx):
     ctx.fn(body)
     sp = ("param", 1, body.locals[1].get("name") or "")
     op = ("param", 2, body.locals[2].get("name") or "")
+    crate_fns = {b.path for b in prog.lib_bodies()}
     w = utable.walker(prog, body, max_visits=2)
     ps = w.paths({sp: frozenset(["LogicVar"]), op: frozenset(["LogicVar"])})
     ctx.stats["paths_walked"] += len(ps)
@@ -39,12 +40,16 @@ def run(ctx):
                 continue
             nm = e["callee"]
             args = e["args"]
-            if nm.endswith("::clone") or nm.endswith("::eq") or nm.endswith("::ne"):
-                continue
+            if nm.endswith("::clone") or nm.endswith("::eq") or nm.endswith("::ne") or e.get("inlined"):
+                continue        # (a helper that was walked into is represented by its own lookups)
             has_other = any(mentions(a, lambda x: x[0] == "param" and x[1] == 2) for a in args)
             has_ss = any(mentions(a, lambda x: x[0] == "param" and x[1] == 3) for a in args)
-            if has_other and has_ss:
-                looked = True   # ss[other.id] (Index::index(ss, other.id)) or helper(other, ss)
+            is_lookup = any(nm.endswith(x) for x in ("::index", "::get", "::get_unchecked"))
+            crate_helper = nm in crate_fns and not nm.endswith("Unifiable::unify")
+            if has_other and has_ss and (crate_helper or (is_lookup and len(args) == 2 and
+                                                          mentions(args[0], lambda x: x[0] == "param" and x[1] == 3) and
+                                                          mentions(args[1], lambda x: x[0] == "param" and x[1] == 2))):
+                looked = True   # ss[other.id] / ss.get(other.id) (the key derives from the other operand), or helper(other, ss)
         for c, v, bb in p.decisions:
             # `other.id >= ss.len()`: the other variable is outside the set, i.e. unbound
             if c[0] == "binop" and c[1] in ("Ge", "Lt", "Gt", "Le"):
